@@ -45,7 +45,9 @@ def main(dirs):
                     continue
                 md = json.load(open(meta))
                 pid = md.get("property") or os.path.basename(d).replace("out_", "")
-                sid = f"{pid}-{os.path.basename(d).replace('out_', '')}-{n}" if os.path.basename(d).replace("out_", "") != pid else f"{pid}-{n}"
+                base = os.path.basename(d.rstrip("/"))
+                rnd = re.match(r"out(\d+)_", base)
+                sid = f"{pid}-r{rnd.group(1)}-{n}" if rnd else f"{pid}-{n}"
                 log = {}
                 sh(["git", "-C", WT, "checkout", "--", "."])
                 rc, out = sh(["/venv/bin/python", demo], cwd=WT, env=env)
